@@ -20,12 +20,12 @@ Fixpoint pair_succs (m1 m2 : nfm) (p : nat * nat) (syms : list sym) (acc : list 
     so no large unary number is ever built *)
 Record bstate := { b_todo : list (nat * nat); b_R : list (nat * nat); b_par : list (nat * nat * (nat * nat) * sym) }.
 
-Definition bstep (m1 m2 : nfm) (st : bstate) : bstate + ((list (nat * nat)) + sfail) :=
+Definition bstep (ss : list sym) (m1 m2 : nfm) (st : bstate) : bstate + ((list (nat * nat)) + sfail) :=
   match b_todo st with
   | [] => inr (inl (b_R st))
   | p :: rest =>
     if memp p (b_R st) then inl {| b_todo := rest; b_R := b_R st; b_par := b_par st |}
-    else match pair_succs m1 m2 p all_syms [] with
+    else match pair_succs m1 m2 p ss [] with
          | inr s => inr (inr {| sf_q1 := fst p; sf_q2 := snd p; sf_sym := s; sf_parents := b_par st |})
          | inl l =>
              let new := filter (fun x => negb (memp (fst x) (p :: b_R st))) l in
@@ -34,28 +34,31 @@ Definition bstep (m1 m2 : nfm) (st : bstate) : bstate + ((list (nat * nat)) + sf
          end
   end.
 
-Fixpoint bloop (fuel : positive) (m1 m2 : nfm) (st : bstate) : bstate + ((list (nat * nat)) + sfail) :=
+Fixpoint bloop (ss : list sym) (fuel : positive) (m1 m2 : nfm) (st : bstate) : bstate + ((list (nat * nat)) + sfail) :=
   match fuel with
-  | xH => bstep m1 m2 st
-  | xO f => match bloop f m1 m2 st with inl st' => bloop f m1 m2 st' | inr r => inr r end
-  | xI f => match bstep m1 m2 st with
-            | inl st1 => match bloop f m1 m2 st1 with inl st' => bloop f m1 m2 st' | inr r => inr r end
+  | xH => bstep ss m1 m2 st
+  | xO f => match bloop ss f m1 m2 st with inl st' => bloop ss f m1 m2 st' | inr r => inr r end
+  | xI f => match bstep ss m1 m2 st with
+            | inl st1 => match bloop ss f m1 m2 st1 with inl st' => bloop ss f m1 m2 st' | inr r => inr r end
             | inr r => inr r end
   end.
 
-Definition dfa_bsearch (d1 d2 : dfa) : (list (nat * nat)) + sfail :=
-  match bloop (Pos.shiftl 1 40) (step_tree d1) (step_tree d2)
+Definition dfa_bsearch_on (ss : list sym) (d1 d2 : dfa) : (list (nat * nat)) + sfail :=
+  match bloop ss (Pos.shiftl 1 40) (step_tree d1) (step_tree d2)
               {| b_todo := [(d_start d1, d_start d2)]; b_R := []; b_par := [] |} with
   | inr r => r
   | inl st => inr {| sf_q1 := 0; sf_q2 := 0; sf_sym := 999%N; sf_parents := b_par st |}
   end.
+Definition dfa_bsearch : dfa -> dfa -> (list (nat * nat)) + sfail := dfa_bsearch_on all_syms.
 
-(** search + verified check in one call (what the extracted driver runs) *)
-Definition dfa_bisim_run (d1 d2 : dfa) : bool + sfail :=
-  match dfa_bsearch d1 d2 with
-  | inl R => inl (dfa_bisim_check d1 d2 R)
+(** search + verified check in one call (what the extracted driver runs); [eof]: the parsers have an end() function,
+    so the end-of-input symbol is one of the symbols they are given *)
+Definition dfa_bisim_run_on (eof : bool) (d1 d2 : dfa) : bool + sfail :=
+  match dfa_bsearch_on (syms_for eof) d1 d2 with
+  | inl R => inl (dfa_bisim_check_on (syms_for eof) d1 d2 R)
   | inr f => inr f
   end.
+Definition dfa_bisim_run : dfa -> dfa -> bool + sfail := dfa_bisim_run_on true.
 
 (** diagnostics for the no-spin certificate: first (state, symbol) whose normal form runs out of fuel *)
 Definition spin_witness (d : dfa) : option (nat * sym) :=
@@ -67,6 +70,19 @@ Definition spin_witness (d : dfa) : option (nat * sym) :=
   end.
 
 (** search + check packaged as one boolean, with its soundness statement (what certificates cite) *)
+Definition dfa_equiv_cert_on (eof : bool) (d1 d2 : dfa) : bool :=
+  match dfa_bsearch_on (syms_for eof) d1 d2 with inl R => dfa_bisim_check_on (syms_for eof) d1 d2 R | inr _ => false end.
+
+Theorem dfa_equiv_cert_on_sound eof d1 d2 : dfa_equiv_cert_on eof d1 d2 = true ->
+  forall D exec evalt n input, (forall s, In s input -> In s (syms_for eof)) -> forall x,
+  match run D exec evalt (step_tree d1) n (d_start d1) input x, run D exec evalt (step_tree d2) n (d_start d2) input x with
+  | Some a, Some b => a = b
+  | _, _ => False end.
+Proof.
+  unfold dfa_equiv_cert_on. destruct (dfa_bsearch_on (syms_for eof) d1 d2) as [R|f]; [|discriminate].
+  intros H. apply (dfa_bisim_sound_on (syms_for eof) d1 d2 R H).
+Qed.
+
 Definition dfa_equiv_cert (d1 d2 : dfa) : bool :=
   match dfa_bsearch d1 d2 with inl R => dfa_bisim_check d1 d2 R | inr _ => false end.
 
